@@ -4,6 +4,7 @@ import AkVerif.Model.Sticky
 import AkVerif.Model.StickyAlg
 import Driver.WireIO
 import Driver.ConnIO
+import Driver.ScramIO
 /-!
 Line-protocol driver: one operation per line on stdin, one canonical line per operation on stdout.
 The first token selects the model; unknown or malformed lines print `bad-op` (never a default).
@@ -19,6 +20,7 @@ def dispatch (toks : List String) : Option String :=
   | "sticky" :: rest => StickyAlg.handle rest
   | "c11" :: rest => WireIO.handle rest
   | "c12" :: rest => ConnIO.handle rest
+  | "c18" :: rest => ScramIO.handle rest
   | _ => none
 
 partial def loop (h : IO.FS.Stream) (out : IO.FS.Stream) : IO Unit := do
